@@ -129,6 +129,9 @@ Record body_case := {
   b_req_enc : enc; b_req : string;
   b_status : Z;
   b_resp_enc : enc; b_resp : string;
+  b_zip : bool; b_minlen : Z;         (* proxy `compression` configured, its minLength *)
+  b_ae : option string;               (* the client's Accept-Encoding (None = absent) *)
+  b_gz : string;                      (* oracle: gzip of the body the backend's framing carries *)
   b_bad : bool;                       (* panic or no response head at all *)
   b_ostatus : Z; b_obody : string; b_oframe : bool;
   b_oheads : Z; b_ocomplete : Z; b_obbody : string
@@ -138,21 +141,75 @@ Definition body_obs (c : body_case) : observed string :=
   {| ob_status := b_ostatus c; ob_body := b_obody c; ob_frame := b_oframe c;
      ob_heads := b_oheads c; ob_complete := b_ocomplete c; ob_bbody := b_obbody c |}.
 
+(** strings.Contains *)
+Fixpoint str_contains (needle hay : string) : bool :=
+  prefix needle hay || match hay with EmptyString => false | String _ t => str_contains needle t end.
+
+(** pkg/filters/proxy/compression.go: the response is compressed when the client accepts
+    gzip (no Accept-Encoding at all counts as accepting) and the announced length is unknown
+    or at least minLength (the scripted backend never labels its body itself) *)
+Definition compressed (c : body_case) : bool :=
+  b_zip c &&
+  match b_ae c with None => true | Some ae => str_contains "gzip" ae || str_contains "*/*" ae end &&
+  match b_resp_enc c with EncCL d => b_minlen c <=? d | _ => true end.
+
+Definition req_wire (c : body_case) : wire string := {| w_enc := b_req_enc c; w_sent := b_req c |}.
+Definition resp_wire0 (c : body_case) : wire string := {| w_enc := b_resp_enc c; w_sent := b_resp c |}.
+(** what FetchPayload sees: a compressed response is a body of unknown length - the gzip
+    stream - that ends cleanly iff the backend's own framing was satisfied *)
+Definition resp_wire (c : body_case) : wire string :=
+  if compressed c then
+    let ok := wire_complete slen (resp_wire0 c) in
+    {| w_enc := EncChunked ok; w_sent := if ok then b_gz c else EmptyString |}
+  else resp_wire0 c.
+
 Definition body_model (c : body_case) : outcome string :=
-  serve slen stake EmptyString (b_cfg c)
-        {| w_enc := b_req_enc c; w_sent := b_req c |} (b_status c)
-        {| w_enc := b_resp_enc c; w_sent := b_resp c |}.
+  serve slen stake EmptyString (b_cfg c) (req_wire c) (b_status c) (resp_wire c).
+
+(** "a body shorter than its declared length produces an error status", judged on the
+    backend's own framing also when the proxy compresses: never a well-framed success *)
+Definition prop_short_resp (c : body_case) (o : observed string) : bool :=
+  let ceff := spec_norm (effective (c_path (b_cfg c)) (c_srv (b_cfg c))) in
+  let passes := wire_complete slen (req_wire c) && fits slen ceff (req_wire c) in
+  if enc_wf (b_req_enc c) && enc_wf (b_resp_enc c) && passes && wire_short slen (resp_wire0 c) && (ob_complete o =? 1)
+  then (400 <=? ob_status o) || negb (ob_frame o) else true.
 
 Definition check_body (c : body_case) : result :=
-  let req := {| w_enc := b_req_enc c; w_sent := b_req c |} in
-  let resp := {| w_enc := b_resp_enc c; w_sent := b_resp c |} in
   let o := body_obs c in
   if b_bad c then (false, false, 1%N, 0%N) else
   (corr_serve EmptyString String.eqb (body_model c) o,
-   prop_serve slen stake EmptyString String.eqb (b_cfg c) req (b_status c) resp o,
-   class_serve slen (b_cfg c) req resp o, 0%N).
+   prop_serve slen stake EmptyString String.eqb (b_cfg c) (req_wire c) (b_status c) (resp_wire c) o && prop_short_resp c o,
+   (class_serve slen (b_cfg c) (req_wire c) (resp_wire0 c) o + bN (compressed c) 128)%N, 0%N).
 
 Definition explain_body (c : body_case) := body_model c.
+
+(** *** histories with reloads of the mux: every step is judged as a single exchange under
+    the limits in force at that step *)
+Record reload_case := { rl_steps : list body_case; rl_bad : bool }.
+
+Definition cfg_eqb (a b : config) : bool :=
+  (c_srv a =? c_srv b) && (c_path a =? c_path b) && (c_pool a =? c_pool b) && (c_proxy a =? c_proxy b).
+
+Fixpoint reloads (prev : option config) (l : list body_case) : nat :=
+  match l with
+  | [] => O
+  | c :: t => (match prev with Some p => if cfg_eqb p (b_cfg c) then 0 else 1 | None => 0 end + reloads (Some (b_cfg c)) t)%nat
+  end.
+
+Definition check_reload (h : reload_case) : result :=
+  if rl_bad h then (false, false, 1%N, 0%N) else
+  let rs := map check_body (rl_steps h) in
+  (forallb (fun r => fst (fst (fst r))) rs, forallb (fun r => snd (fst (fst r))) rs,
+   match rl_steps h with
+   | [] => 0%N
+   | _ =>
+       let k := N.of_nat (Nat.min 3 (reloads None (rl_steps h))) in
+       let b1 := existsb (fun c => b_ostatus c =? 413) (rl_steps h) in
+       let b2 := existsb (fun c => c_path (b_cfg c) =? 0) (rl_steps h) in
+       (1 + k + bN b1 4 + bN b2 8)%N
+   end, 0%N).
+
+Definition explain_reload (h : reload_case) := map body_model (rl_steps h).
 
 (** *** instance: lengths only (4 MiB cases); "intact" bits are computed by the harness *)
 Record big_case := {
